@@ -101,4 +101,11 @@ void m_nested(void) { int x = nondet_int(); in_x = x; in_pnull = nondet_bool(); 
   __CPROVER_assert(PM_DEREF_EQ(&de, &u) == (p != 0 && x == v), "[C10] POST nested_deref_of_eq");
   __CPROVER_assert(PM_DEREF_NOT_GT(&dn, &u) == (p != 0 && !(x > w)), "[C10] POST nested_deref_of_not_of_gt");
   __CPROVER_assert(0, "REACH! nested"); }
+/* comparison matchers on double: every pair of IEEE-754 values, so unordered operands (NaN) included */
+double nondet_double(void); double in_dx, in_dv;
+#define DCMP(PM, OP, text) { PM##_T0 m; m.value._0 = v; __CPROVER_assert(PM(&m, &u) == (x OP v), "[C10] POST " text); }
+void m_double(void) { double x = nondet_double(), v = nondet_double(); in_dx = x; in_dv = v; PM_EQ_D_T1 u; u.p = &x;
+  DCMP(PM_EQ_D, ==, "double_eq_accepts_exactly_x_eq_v") DCMP(PM_NE_D, !=, "double_ne_accepts_exactly_x_ne_v") DCMP(PM_LT_D, <, "double_lt_accepts_exactly_x_lt_v")
+  DCMP(PM_LE_D, <=, "double_le_accepts_exactly_x_le_v") DCMP(PM_GT_D, >, "double_gt_accepts_exactly_x_gt_v") DCMP(PM_GE_D, >=, "double_ge_accepts_exactly_x_ge_v")
+  __CPROVER_assert(x == x && v == v, "REACH double.unordered"); __CPROVER_assert(0, "REACH! double"); }
 int main(void) { VP_ENTRY(); return 0; }
